@@ -2,6 +2,7 @@
 import itertools, struct
 from ..framework import Case, run_impl
 from .clmref import *
+from ..common import unhex
 
 LEAN_MODULES = ["Op2Proofs.Props.C03"]
 RULE = ("sets of 0..8 RIFF/WAVE files built from the chunk grammar ([extra]* 'fmt ' [extra]* 'data' [extra]*; extra chunks "
@@ -62,19 +63,61 @@ class Track:
         self.rel = prefix + name + ext
     def arg(self): return file_arg(self.rel, self.bytes)
 
+def check_wav(field, fmt16, data):
+    """the extracted file is a self-consistent WAV carrying the common format and exactly the data (structure, not exact bytes)"""
+    if "/" not in field: return f"extraction gave {field[:40]!r}"
+    hh, payload = field.split("/", 1)
+    if hh == "short": return "extracted file is shorter than the member"
+    if payload != show(data): return f"extracted payload {payload[:40]} differs from the audio data {show(data)[:40]}"
+    h = unhex(hh)
+    total = len(h) + len(data)
+    if len(h) < 12 or h[:4] != b"RIFF" or h[8:12] != b"WAVE": return "extracted file is not RIFF/WAVE"
+    if struct.unpack_from("<I", h, 4)[0] + 8 != total: return f"extracted RIFF size {struct.unpack_from('<I', h, 4)[0]} + 8 != file length {total}"
+    pos = 12; seen_fmt = False
+    while True:
+        if pos + 8 > len(h): return "extracted header does not end with a data chunk header"
+        tag = h[pos:pos + 4]; ln = struct.unpack_from("<I", h, pos + 4)[0]
+        if tag == b"data":
+            if pos + 8 != len(h): return "data chunk is not the last thing before the payload"
+            if ln != len(data): return f"data chunk length {ln} != payload length {len(data)}"
+            break
+        if tag == b"fmt ":
+            body = h[pos + 8: pos + 8 + ln]
+            if ln < 16 or len(body) != ln: return f"fmt chunk of size {ln} is malformed"
+            if body[:16] != fmt16: return f"extracted format {body[:16].hex()} is not the common format {fmt16.hex()}"
+            if ln >= 18 and body[16:18] != b"\0\0": return "extracted fmt chunk claims extra format bytes (cbSize != 0) that it does not carry"
+            seen_fmt = True
+        pos += 8 + ln + (ln & 1)
+    return None if seen_fmt else "extracted file has no fmt chunk before the data"
+
 def expected(tracks):
-    """what the property demands of clm.pack on an admissible set (any order)"""
+    """what the property demands of clm.pack on an admissible set (any order): (exact prefix, per-member exact part, per-member wav check)"""
     ts = sorted(tracks, key=lambda t: lower_key(t.name))
     fmt18 = (ts[0].fmt16 + b"\0\0") if ts else DEFAULT_FMT + b"\0\0"
     arc = clm_encode(fmt18, [(t.name, t.data) for t in ts])
-    out = f"ok {show(arc)} {len(ts)}"
-    for t in ts:
-        out += f" {t.name.hex()}:{len(t.data)}:{show(t.data)}:{show(wav_header(fmt18, len(t.data)) + t.data)}"
-    return out
+    head = f"ok {show(arc)} {len(ts)}"
+    members = [(f"{t.name.hex()}:{len(t.data)}:{show(t.data)}", t) for t in ts]
+    return head, members
+
+def pack_check(tracks):
+    head, members = expected(tracks)
+    def chk(out):
+        parts = out.split(" ")
+        if " ".join(parts[:3]) != head:
+            return f"archive bytes / member count differ from the reference layout: wanted {head!r}, got {' '.join(parts[:3])[:120]!r}"
+        if len(parts) != 3 + len(members): return f"{len(parts) - 3} members listed, {len(members)} packed"
+        for got, (want, t) in zip(parts[3:], members):
+            if got.rsplit(":", 1)[0] != want:
+                return f"member {t.name!r}: name:size:stream is {got.rsplit(':', 1)[0][:100]!r}, the sources say {want[:100]!r}"
+            msg = check_wav(got.rsplit(":", 1)[1], t.fmt16 if tracks else DEFAULT_FMT, t.data)
+            if msg: return f"member {t.name!r}: {msg}"
+        return None
+    return chk
 
 def pack_case(tracks, tag, expect="auto"):
     line = "clm.pack" + "".join(" " + t.arg() for t in tracks)
-    return Case(line, expect=expected(tracks) if expect == "auto" else expect, tag=tag)
+    if expect == "auto": return Case(line, check=pack_check(tracks), tag=tag)
+    return Case(line, expect=expect, tag=tag)
 
 def rand_track(rng, taken, fmt16, dlen=None, force_post=False, big=False):
     name = rand_name(rng, taken)
@@ -169,9 +212,12 @@ def cases(tier, rng):
 
 def search(drv, model, diverged, lean, rng):
     """after a broken tie: a larger sample of the same generator, looking for a case whose direct oracle fails"""
-    cs = [c for c in cases("thorough", rng) if c.expect is not None]
+    cs = [c for c in cases("thorough", rng) if c.expect is not None or c.check is not None]
     outs = run_impl(drv, [c.line for c in cs])
     for c, o in zip(cs, outs):
-        if o != c.expect:
+        if c.expect is not None and o != c.expect:
             return c, o, f"direct oracle: property demands {c.expect[:200]!r}, implementation returned {o[:200]!r}"
+        if c.check is not None:
+            msg = c.check(o)
+            if msg: return c, o, "direct oracle: " + msg
     return None
